@@ -16,6 +16,7 @@ import datetime
 import io
 import os
 import tempfile
+from pathlib import Path
 
 import numpy as np
 
@@ -104,6 +105,156 @@ def summary_fns_then_defaults():
 ORACLES = {
     "summary_fns_then_defaults": (summary_fns_then_defaults, ("C08", "C09")),
 }
+
+# ------------------------------------------------------------------------------------------ extension operators
+def _gappy(premium=True, country=None):
+    """quarterly periods observed from different first lags, one gap, one slice"""
+    from bermuda import CumulativeCell, Metadata, Triangle
+
+    cells = []
+    for q, first in ((1, 2), (2, 1), (3, 0)):
+        ps, pe = D(2020, 3 * q - 2, 1), _mend(2020, 3 * q)
+        for k in range(first, 5):
+            if q == 1 and k == 3:
+                continue
+            mm = 3 * q + 3 * k
+            e = _mend(2020 + (mm - 1) // 12, (mm - 1) % 12 + 1)
+            vals = {"paid_loss": 100 * q + k, "reported_claims": q + k}
+            if premium:
+                vals["earned_premium"] = 1000 * q
+            cells.append(CumulativeCell(ps, pe, e, vals, Metadata(country=country)))
+    return Triangle(cells)
+
+
+def extension_ops_after_other_calls():
+    """make_right_triangle / make_right_diagonal / fill_forward_gaps / backfill with DEFAULT arguments give the same
+    result before and after calls with other arguments (explicit lists, a triangle without the default static field:
+    refused with KeyError, fill_with_none, other resolutions) - C15: backfilled cells carry the period's static fields."""
+    from bermuda.utils import backfill, fill_forward_gaps, make_right_diagonal, make_right_triangle
+
+    t, t_np = _gappy(True), _gappy(False, country="US")
+    diag = [_mend(2021, 12), _mend(2022, 3)]
+    observed = {
+        "backfill(t)": lambda: backfill(t),
+        "backfill(t, min_dev_lag=3)": lambda: backfill(t, min_dev_lag=3),
+        "fill_forward_gaps(t)": lambda: fill_forward_gaps(t),
+        "make_right_triangle(t)": lambda: make_right_triangle(t),
+        "make_right_diagonal(t, dates)": lambda: make_right_diagonal(t, list(diag)),
+    }
+    ref = {k: _run(f) for k, f in observed.items()}
+    fails = []
+    for k, (st, r) in ref.items():
+        if st != "ok":
+            fails.append(f"{k} raised {r!r} on a plain gappy triangle")
+    if fails:
+        return fails
+    # what C15 says about the reference backfill itself
+    for c in ref["backfill(t)"][1].cells:
+        if c not in t.cells and (c["earned_premium"] != 1000 * ((c.period_start.month + 2) // 3) or c["paid_loss"] != 0):
+            fails.append(f"backfilled cell {c.period_start} @ {c.evaluation_date} holds {dict(c.values)}: "
+                         "must be zeros plus the period's static earned_premium")
+            break
+    sf = ["earned_premium", "reported_claims"]
+    lags = [24.0, 36.0]
+    interfering = [
+        lambda: backfill(t_np),                                  # refused: no earned_premium
+        lambda: backfill(t_np, static_fields=[]),
+        lambda: backfill(t, static_fields=sf, eval_resolution=3, min_dev_lag=-2),
+        lambda: fill_forward_gaps(t, eval_resolution=1, fill_with_none=True),
+        lambda: fill_forward_gaps(t_np, fill_with_none=True),
+        lambda: make_right_triangle(t, dev_lags=lags),
+        lambda: make_right_triangle(t_np, dev_lags=[0.0, 400.0], dev_lag_unit="day"),
+        lambda: make_right_diagonal(t, diag, include_historic=True),
+        lambda: make_right_diagonal(t_np, [D(2019, 1, 31)]),
+    ]
+    for f in interfering:
+        _run(f)
+    if sf != ["earned_premium", "reported_claims"] or lags != [24.0, 36.0] or diag != [_mend(2021, 12), _mend(2022, 3)]:
+        fails.append(f"a list passed as an argument was modified by the call: {sf} {lags} {diag}")
+    for k, f in observed.items():
+        st, r = _run(f)
+        if st != "ok" or _canon(r.cells) != _canon(ref[k][1].cells):
+            what = repr(r) if st != "ok" else next((f"{c.period_start} @ {c.evaluation_date}: {dict(c.values)}" for c, c0 in
+                                                    zip(r.cells, ref[k][1].cells) if _canon([c]) != _canon([c0])), f"{len(r)} cells")
+            fails.append(f"{k} gives a different result after earlier calls with other arguments ({what})")
+    return fails
+
+
+# ------------------------------------------------------------------------------------------ binary writer / reader
+def _tri_for_binary(country, n=3, premium=7.5):
+    from bermuda import CumulativeCell, Metadata, Triangle
+
+    md = Metadata(country=country, currency="EUR", details={"lob": "motor"}) if country else Metadata()
+    return Triangle([CumulativeCell(D(2020, 1, 1), _mend(2020, 12), _mend(2020 + k, 12),
+                                    {"paid_loss": 10 * k + 1, "earned_premium": premium, "s": np.array([1.5, k, 3.0])}, md)
+                     for k in range(n)])
+
+
+def binary_writes_in_sequence():
+    """to_binary / from_binary in one process: every file is the same bytes as when the triangle is written first in
+    a fresh state, and reads back strictly identical - after a write that was refused midway (unsupported dtype),
+    after a write of a triangle whose LAST metadata equals the next triangle's FIRST metadata, after a read that
+    failed on a torn file, for .trib and .tribc (C05, C06, C19)."""
+    from bermuda import CumulativeCell, Metadata, Triangle
+
+    fails = []
+    a, b = _tri_for_binary("DE"), _tri_for_binary("DE", n=2, premium=8.5)
+    two = Triangle(list(_tri_for_binary("AT").cells) + list(a.cells))            # last slice = a's metadata
+    bad = Triangle([CumulativeCell(D(2020, 1, 1), _mend(2020, 12), _mend(2020, 12),
+                                   {"paid_loss": 1, "zz": np.array([1, 2], dtype=np.float32)}, Metadata(country="DE"))])
+    with tempfile.TemporaryDirectory(dir=os.environ.get("TMPDIR") or None) as d:
+        def wr(t, name):
+            p = os.path.join(d, name)
+            t.to_binary(p, compress=name.endswith(".tribc"))
+            return p, Path(p).read_bytes()
+
+        def rd(p):
+            return Triangle.from_binary(p)
+
+        ref = {}
+        for nm, t in (("a", a), ("b", b), ("two", two)):
+            st, r = _run(lambda t=t, nm=nm: wr(t, f"ref_{nm}.trib"))
+            if st != "ok":
+                return [f"to_binary raised {r!r}"]
+            ref[nm] = r[1]
+            st, back = _run(lambda r=r: rd(r[0]))
+            if st != "ok" or _canon(back.cells) != _canon(t.cells):
+                fails.append(f"write-then-read of triangle {nm} is not the identity ({back!r})"[:300])
+        seq = [("two", two), ("a", a), ("a", a), ("b", b), ("BAD", bad), ("a", a), ("b", b), ("TORN", None), ("two", two), ("a", a)]
+        for i, (nm, t) in enumerate(seq):
+            if nm == "BAD":
+                st, r = _run(lambda: wr(bad, "bad.trib"))
+                if st == "ok":     # accepted dtype: then it must read back
+                    st2, back = _run(lambda: rd(r[0]))
+                    if st2 != "ok":
+                        fails.append(f"a float32 array was written without error but the file does not read back ({back!r})")
+                continue
+            if nm == "TORN":
+                p = os.path.join(d, "torn.trib")
+                Path(p).write_bytes(ref["a"][: len(ref["a"]) - 5])
+                _run(lambda: rd(p))
+                continue
+            for ext in (".trib", ".tribc"):
+                st, r = _run(lambda t=t, i=i, ext=ext: wr(t, f"seq_{i}{ext}"))
+                if st != "ok":
+                    fails.append(f"step {i}: to_binary({nm}{ext}) raised {r!r} after {[x for x, _ in seq[:i]]}")
+                    continue
+                if ext == ".trib" and r[1] != ref[nm]:
+                    fails.append(f"step {i}: the bytes written for triangle {nm} differ from the bytes written for it first in the "
+                                 f"process ({len(r[1])} vs {len(ref[nm])} bytes) after {[x for x, _ in seq[:i]]}")
+                st, back = _run(lambda r=r: rd(r[0]))
+                if st != "ok" or _canon(back.cells) != _canon(t.cells):
+                    fails.append(f"step {i}: {nm}{ext} does not read back identically after {[x for x, _ in seq[:i]]}: "
+                                 + (repr(back) if st != "ok" else f"metadata {back.cells[0].metadata}")[:200])
+            if len(fails) > 4:
+                break
+    return fails
+
+
+ORACLES.update({
+    "extension_ops_after_other_calls": (extension_ops_after_other_calls, ("C15",)),
+    "binary_writes_in_sequence": (binary_writes_in_sequence, ("C05", "C06", "C19")),
+})
 
 
 def run_for(ctx, prop):
